@@ -117,6 +117,12 @@ PROPS = {
         "assumptions": ["a 'copy' is any occurrence of the normalised value in the normalised unknown string found by a left-to-right non-overlapping scan", "panics on goroutines spawned by the library kill the process: the in-flight case is adopted by the driver"],
         "parts": [part("strcls", "TestVerif_C13", "verbatim", 6000, 120000, shards=(8, 16), prewrite=True)],
     },
+    "C14": {
+        "rule": "generated concurrent workloads on one v1 classifier under the Go race detector with result comparison against a sequential reference (stringclassifier.Classifier populated lazily and precomputed; licenseclassifier.License built from an in-process archive)",
+        "assumptions": ["schedules are sampled, not owned (see C09)", "queries are built so that the best match is unique (NearestMatch is documented as undefined on ties)"],
+        "timeout": {"quick": 600, "thorough": 3000},
+        "parts": [part("strcls", "TestVerif_C14_StringClassifier", "stringclassifier", 160, 3000, shards=(8, 16), race=True, prewrite=True, gomaxprocs=8)],
+    },
     "C17": {
         "rule": "generated strings (all Unicode space / punctuation kinds, invalid UTF-8) for the tokenizer invariants; generated low-vocabulary source/target pairs for the candidate-range invariants of FindPotentialMatches and TargetRange",
         "assumptions": ["ordering of a candidate's ranges is read as non-decreasing TargetStart"],
